@@ -114,6 +114,7 @@ class Template:
         self.connects = []          # (a IR, b IR, gen frames, lineno)
         self.calls = []             # other call statements: (IR, gen frames, dsl frames, lineno)
         self.asserts = []
+        self.bare_returns = []      # (gen, lineno) of `return` without a value
         self.raises = []
         self.trys = []
         self.yields = []
@@ -135,6 +136,52 @@ class Template:
 # gen frames:  ('for', loop_id)  ('pyif', cond, polarity)
 
 SIGNAL_CTORS = {"Signal"}
+
+
+def single_exit(body):
+    """`if c: ...; return a` followed by more statements and a final `return b` rewritten with one exit:
+    if c: ...; __ret = a  else: <rest>; __ret = b   followed by `return __ret`.  None when a return sits anywhere else."""
+    ret = "__ret"
+
+    def conv(stmts):
+        out = []
+        for i, s in enumerate(stmts):
+            if isinstance(s, ast.Return):
+                if s.value is None:
+                    return None
+                return out + [ast.copy_location(ast.Assign(targets=[ast.Name(id=ret, ctx=ast.Store())], value=s.value, lineno=s.lineno), s)]
+            if isinstance(s, ast.If) and any(isinstance(n, ast.Return) for n in ast.walk(s)):
+                then = conv(s.body)
+                if then is None:
+                    return None
+                then_returns = isinstance(s.body[-1], ast.Return)
+                if s.orelse:
+                    els = conv(s.orelse)
+                    if els is None or not (then_returns and isinstance(s.orelse[-1], ast.Return)) or stmts[i + 1:]:
+                        return None
+                else:
+                    if not then_returns:
+                        return None
+                    els = conv(stmts[i + 1:])
+                    if els is None:
+                        return None
+                new = ast.If(test=s.test, body=then, orelse=els)
+                ast.copy_location(new, s)
+                return out + [new]
+            if any(isinstance(n, ast.Return) for n in ast.walk(s)):
+                return None
+            out.append(s)
+        return None                                     # falls off the end: no value
+    new = conv(body)
+    if new is None:
+        return None
+    r = ast.Return(value=ast.Name(id=ret, ctx=ast.Load()))
+    ast.copy_location(r, body[-1])
+    for n in ast.walk(r):
+        ast.copy_location(n, body[-1])
+    for s in new:
+        ast.fix_missing_locations(s)
+    return new + [r]
 
 
 class Walker:
@@ -205,11 +252,15 @@ class Walker:
             body = [s for s in target.node.body if not (isinstance(s, ast.Expr) and isinstance(s.value, ast.Constant))]
             simple = all(isinstance(s, ast.Assign) and len(s.targets) == 1 and isinstance(s.targets[0], ast.Name) for s in body[:-1])
             a = target.node.args
+            static = any(isinstance(d_, ast.Name) and d_.id == "staticmethod" for d_ in target.node.decorator_list)
+            if any(isinstance(n, ast.Return) for s in body[:-1] for n in ast.walk(s)):
+                body = single_exit(body) or body        # `if c: return a` ... `return b`  ->  one exit
             if len(body) > 1 and not simple and isinstance(body[-1], ast.Return) and body[-1].value is not None and \
                     not any(isinstance(n, (ast.Return, ast.Yield, ast.YieldFrom, ast.Nonlocal, ast.Global))
                             for s in body[:-1] for n in ast.walk(s)) and \
-                    not a.vararg and not a.kwarg and a.args and a.args[0].arg == "self":
-                out = (target.node, body)
+                    not a.vararg and not a.kwarg and (static or a.args and a.args[0].arg == "self") and \
+                    (not static or any(self.is_m(x) for x in call.args)):
+                out = (target.node, body, static)
         self._method_procs[key] = out
         return out
 
@@ -222,6 +273,7 @@ class Walker:
             def visit_Call(self, call):
                 self.generic_visit(call)
                 is_method = False
+                static = False
                 if isinstance(call.func, ast.Name) and call.func.id in walker.localprocs and \
                         walker.env.get(call.func.id) == ('localproc', call.func.id):
                     st, body = walker.localprocs[call.func.id]
@@ -231,8 +283,8 @@ class Walker:
                     mp = walker.method_proc(call)
                     if mp is None:
                         return call
-                    st, body = mp
-                    params = [a.arg for a in st.args.args][1:] + [a.arg for a in st.args.kwonlyargs]
+                    st, body, static = mp
+                    params = [a.arg for a in st.args.args][0 if static else 1:] + [a.arg for a in st.args.kwonlyargs]
                     fname = call.func.attr
                     is_method = True
                 if len(call.args) > len(params) or any(isinstance(a, ast.Starred) for a in call.args) or \
@@ -242,7 +294,7 @@ class Walker:
                 bound = {p: walker.ex(a) for p, a in zip(params, call.args)}
                 for k in call.keywords:
                     bound[k.arg] = walker.ex(k.value)
-                pos = [a.arg for a in st.args.args][1 if is_method else 0:]
+                pos = [a.arg for a in st.args.args][1 if is_method and not static else 0:]
                 for p, dflt in zip(pos[len(pos) - len(st.args.defaults):], st.args.defaults):
                     bound.setdefault(p, walker.ex(dflt))
                 for a_, dflt in zip(st.args.kwonlyargs, st.args.kw_defaults):
@@ -253,6 +305,9 @@ class Walker:
                     return call
                 if walker.proc_depth >= 3:
                     walker.unsupported(call, f"local function {fname} is recursive")
+                    return call
+                if is_method and any(walker.is_m(a) and p != walker.m for p, a in zip(params, call.args)):
+                    walker.unsupported(call, f"helper {fname} receives the module under another name")
                     return call
                 saved_env, saved_ctx = dict(walker.env), dict(walker.bind_ctx)
                 walker.proc_depth += 1
@@ -396,6 +451,8 @@ class Walker:
                     self.t.returns_module = True
                 elif v[0] == 'call' and v[1] == ('name', 'Module'):
                     self.t.returns_module = True
+            else:
+                self.t.bare_returns.append((self.gen, st.lineno))
             return
         if isinstance(st, ast.Assert):
             self.t.asserts.append((self.ex(st.test), self.gen, st.lineno))
@@ -732,6 +789,11 @@ class Walker:
                 isinstance(fn.body.op, ast.BitOr):
             a, b = (x.arg for x in fn.args.args)
             is_or = {ast.unparse(fn.body.left), ast.unparse(fn.body.right)} == {a, b}
+        if is_or and isinstance(seq, ast.Name) and self.env.get(seq.id, ('x',))[0] == 'listacc':
+            # reduce over a list that was filled by appends: for __r in xs: acc |= __r
+            el = f"__r{self.fresh()}"
+            seq = ast.GeneratorExp(elt=ast.Name(id=el, ctx=ast.Load()),
+                                   generators=[ast.comprehension(target=ast.Name(id=el, ctx=ast.Store()), iter=seq, ifs=[], is_async=0)])
         if not is_or or not isinstance(seq, (ast.GeneratorExp, ast.ListComp)) or len(seq.generators) != 1 or \
                 seq.generators[0].is_async:
             return None
